@@ -308,7 +308,7 @@ class Report:
         return True
 
     def finish(self):
-        outdir = os.path.join(VERIF, "out", "violations")
+        outdir = os.environ.get("VERIF_VIOL_DIR", os.path.join(VERIF, "out", "violations"))
         lines = []
         for key, h in sorted(self.known_hits.items()):
             lines.append("KNOWN-FINDING: property=%s %s (observed %d times)" % (self.prop, h["entry"].get("what", key), h["count"]))
@@ -333,8 +333,9 @@ class Report:
               "coverage": self.cov, "assumptions": self.assumptions,
               "wall_s": round(time.time() - self.t0, 1), "violations": nv}
         ev["coverage"]["known_findings_observed"] = {k: v["count"] for k, v in self.known_hits.items()}
-        os.makedirs(os.path.join(VERIF, "evidence"), exist_ok=True)
-        with open(os.path.join(VERIF, "evidence", self.prop + ".json"), "w") as f:
+        evdir = os.environ.get("VERIF_EVIDENCE_DIR", os.path.join(VERIF, "evidence"))
+        os.makedirs(evdir, exist_ok=True)
+        with open(os.path.join(evdir, self.prop + ".json"), "w") as f:
             json.dump(ev, f, indent=1, default=str)
         for l in lines:
             print(l)
